@@ -229,6 +229,11 @@ impl Executor {
                 // The shared pointer is kept valid until the Executor is dropped,
                 // to avoid use-after-free issues with concurrent wakers.
                 unsafe { task.drop() };
+                // A waker on another thread may have loaded the `Shared` pointer just
+                // before `task.drop()` nulled it. `clear()` will not see this task any
+                // more, so wait for that waker here, or `Executor::drop` could free
+                // `Shared` under it.
+                task.wait_for_scheduling();
                 queue.remove(id);
             } else {
                 queue.reset(id, task);
